@@ -48,6 +48,41 @@ var triageRules = []triageRule{
 			return fmt.Sprintf("emu/%s/instruction-fetch-8-bytes-crosses-into-unmapped-page/%s/%s/%s", c.Arch, c.Workload, c.SizeName, c.GPUSet())
 		},
 	},
+	{ // timing, plain multi-GPU: defaultMemoryCopyMiddleware.processFlushReturn (driver/memorycopy.go)
+		// removes the flush request from the copy command but never completes the command, so a
+		// copy whose data requests are answered BEFORE the last flush acknowledgement is never
+		// dequeued (the flush is slow when another GPU's kernel is still running).
+		match: func(c Case, o Outcome) bool {
+			return c.Mode == "timing" && o.Status == "hang" && o.Symptom == "hang-memcopy-answered-but-never-dequeued"
+		},
+		sig: func(c Case, o Outcome) string {
+			return fmt.Sprintf("%s/%s/memcopy-answered-before-last-flush-ack-never-dequeued/hang/%s/%s/%s", c.Platform(), c.GPUClass(), c.Workload, c.SizeName, c.GPUSet())
+		},
+	},
+	{ // timing, unified memory on plain multi-GPU: page migration -> RDMA drain -> nil pointer
+		match: func(c Case, o Outcome) bool {
+			return c.Mode == "timing" && c.UM && strings.Contains(o.Symptom, "NewRDMADrainRspToDriver")
+		},
+		sig: func(c Case, o Outcome) string {
+			return fmt.Sprintf("%s/%s/um/page-migration-rdma-drain-rsp-nil-pointer/%s/%s/%s", c.Platform(), c.GPUClass(), c.Workload, c.SizeName, c.GPUSet())
+		},
+	},
+	{ // host reference cpuAtax indexes x[j] for j < NY while x has NX elements
+		match: func(c Case, o Outcome) bool {
+			return c.Workload == "atax" && c.Params["nx"] < c.Params["ny"] && strings.Contains(o.Symptom, "index-out-of-range") && strings.Contains(o.Symptom, "cpuAtax")
+		},
+		sig: func(c Case, o Outcome) string {
+			return fmt.Sprintf("atax/%s/nx<ny/host-reference-index-out-of-range", c.Arch)
+		},
+	},
+	{ // conv2d backward on cdna3: a kernel of the backward pass reads past its buffers (not root-caused)
+		match: func(c Case, o Outcome) bool {
+			return c.Workload == "conv2d" && c.Arch == "cdna3" && c.Params["backward"] == 1 && strings.Contains(o.Symptom, "page-not-found") && strings.Contains(o.Symptom, "runFlatLoadDWord")
+		},
+		sig: func(c Case, o Outcome) string {
+			return "conv2d/cdna3/backward/flat-load-from-unmapped-page"
+		},
+	},
 	{ // MM kernel indexes matrix A by the LOCAL row id: rows >= 32 of C are computed from rows 0..31 of A.
 		match: func(c Case, o Outcome) bool {
 			return c.Workload == "matrixmultiplication" && c.Params["y"] >= 64 && o.Symptom == "strong-oracle-mismatch"
@@ -58,7 +93,7 @@ var triageRules = []triageRule{
 	},
 	{ // gfx942 (HIP) kernels never read the hidden global offset the host uses to split the grid over plain GPUs.
 		match: func(c Case, o Outcome) bool {
-			return c.Arch == "cdna3" && c.GPUClass() == "plain-multi" && offsetSplit[c.Workload] && isMismatch(o)
+			return c.Arch == "cdna3" && c.Mode == "emu" && c.GPUClass() == "plain-multi" && offsetSplit[c.Workload] && isMismatch(o)
 		},
 		sig: func(c Case, o Outcome) string {
 			return fmt.Sprintf("%s/cdna3/plain-multi/hidden-global-offset-ignored/verify-mismatch", c.Workload)
